@@ -480,27 +480,33 @@ func c19Multi(c *Ctx) {
 			c.Unresolved("C19.1", scheme+".Combine", "anchor missing")
 			continue
 		}
-		fl := NewFlow(p, fn)
 		n := 0
 		ok := true
-		eachInstr(fn, func(in ssa.Instruction) {
-			call, isCall := in.(*ssa.Call)
-			if !isCall {
-				return
+		// (in Combine or in a private helper of the package that merges one signature into the combined one)
+		for _, hf := range helperClosure(p, fn, 2) {
+			if funcPkgPath(hf) != funcPkgPath(fn) {
+				continue
 			}
-			b, isB := call.Call.Value.(*ssa.Builtin)
-			if !isB || b.Name() != "append" || !strings.Contains(call.Type().String(), "Multi[") {
-				return
-			}
-			n++
-			var elem string
-			storedInto(sliceBase(call.Call.Args[1]), func(e ssa.Value) bool { elem = fl.K.Key(e); return false })
-			if !falseOf(fl.At(in), func(k string) bool {
-				return strings.Contains(k, ".Contains(") && (strings.Contains(k, ".Signer("+elem+")") || strings.Contains(k, ".Signer(*"+elem+")"))
-			}) {
-				ok = false
-			}
-		})
+			fl := NewFlow(p, hf)
+			eachInstr(hf, func(in ssa.Instruction) {
+				call, isCall := in.(*ssa.Call)
+				if !isCall {
+					return
+				}
+				b, isB := call.Call.Value.(*ssa.Builtin)
+				if !isB || b.Name() != "append" || !strings.Contains(call.Type().String(), "Multi[") {
+					return
+				}
+				n++
+				var elem string
+				storedInto(sliceBase(call.Call.Args[1]), func(e ssa.Value) bool { elem = fl.K.Key(e); return false })
+				if !falseOf(fl.At(in), func(k string) bool {
+					return strings.Contains(k, ".Contains(") && (strings.Contains(k, ".Signer("+elem+")") || strings.Contains(k, ".Signer(*"+elem+")"))
+				}) {
+					ok = false
+				}
+			})
+		}
 		c.Check(ok && n > 0, "C19.1", scheme+".Combine: a signer is appended only if not yet contained", p.FuncPos(fn),
 			"every append to the combined Multi is under !combined.Contains(sig.Signer())", "append not gated by !Contains(signer)")
 	}
